@@ -102,7 +102,8 @@ pub fn classify(toks: &[refxml::Lexed], v: &mut Verdict) {
 
 pub fn check(c: &Case) -> Verdict {
     let data = &c.input.0;
-    if refxml::is_utf16_like(data) {
+    // (a build without `encoding` knows no UTF-16: there the two bytes are ordinary text)
+    if cfg!(feature = "full") && refxml::is_utf16_like(data) {
         let _ = read_slice(data, c.cfg);
         return Verdict::excluded("utf16-signature");
     }
